@@ -90,9 +90,25 @@ def check_doc(doc, opts=None):
     fs = []
     if s["bozo"]:
         return []          # not well-formed for expat: outside the property's hypothesis
+    import re
+    raw = doc if isinstance(doc, bytes) else doc.encode("utf-8")
+    # unrecognised URIs the document binds BOTH to a prefix and as a default namespace (on any elements)
+    pref_of = {}
+    for m in re.finditer(rb'xmlns:([A-Za-z0-9_.-]+)="([^"]*)"', raw):
+        pref_of.setdefault(m.group(2), set()).add(m.group(1).decode())
+    both = {p for u, ps in pref_of.items() if re.search(rb'xmlns="' + re.escape(u) + rb'"', raw) for p in ps}
     for part in ("feed", "entries", "version", "namespaces"):
-        for path, sv, lv in diffs(s[part], l[part], part):
+        ds = diffs(s[part], l[part], part)
+        for path, sv, lv in ds:
             key = classify(path, sv, lv)
+            parent, last = path.rsplit("/", 1)
+            # the strict back end files an UNPREFIXED element of a default namespace under a prefix the document also binds to that URI (expat hands over no
+            # qualified names; the reverse lookup answers the first prefix declared for the URI); the loose one files it under its bare name
+            for pfx in both:
+                if last.startswith(pfx.lower() + "_") and lv == "<absent>" and (parent + "/" + last[len(pfx) + 1:], "<absent>", sv) in ds:
+                    key = ("probe", "strict-unprefixed-element-filed-under-declared-prefix")
+                if sv == "<absent>" and (parent + "/" + pfx.lower() + "_" + last, lv, "<absent>") in ds:
+                    key = ("probe", "strict-unprefixed-element-filed-under-declared-prefix")
             fs.append(Finding(key, w, "%s: strict %r, loose %r" % (path, sv, lv), observed=lv, expected=sv))
     seen, res = set(), []
     for f in fs:
@@ -118,7 +134,21 @@ def with_odd_elements(rng, doc):
     return d.encode("utf-8")
 
 
+def gen_ns_doc(rng):
+    """namespace arrangements the two back ends resolve by different means (the strict one by URI, the loose one through its prefix map): one recognised URI under
+    two document prefixes, a prefix re-bound on an inner element, an unrecognised URI as default namespace and under a prefix"""
+    import importlib
+    C19 = importlib.import_module("props.C19")
+    for _ in range(20):
+        c = rng.choice([C19.gen_two_prefix_case, C19.gen_rebind_case, C19.gen_default_then_prefix_case, C19.gen_two_prefix_case])(rng)
+        if c is not None:
+            return c[0]
+    return gen_doc0(rng)
+
+
 def gen_doc(rng):
+    if rng.random() < 0.12:
+        return gen_ns_doc(rng)
     d = gen_doc0(rng)
     if rng.random() < 0.3:
         return with_odd_elements(rng, d)
@@ -204,7 +234,7 @@ def search(ctx, focus=None):
     return {"evaluations": n, "distinct_nontrivial": len(distinct), "failures": failures,
             "rule": "well-formed reference-free feeds: vocabulary-wide documents (RSS 2.0 / RSS 1.0 / Atom 1.0 with dc, dcterms, itunes, media, georss, content, slash, wfw and "
                     "unknown extension elements), abstract feeds without markup-significant characters in the six XML formats, inline XHTML content (incl. relative URIs, style / event-handler "
-                    "attributes and elements off the allow-list, with and without xml:base) x the per-call options sanitize_html / resolve_relative_uris (default and five explicit settings); each parsed with "
+                    "attributes and elements off the allow-list, with and without xml:base), namespace arrangements (one recognised URI under two prefixes declared on root / item / element, re-bound prefixes, an unrecognised URI as default namespace and under a prefix) x the per-call options sanitize_html / resolve_relative_uris (default and five explicit settings); each parsed with "
                     "_XML_AVAILABLE True and False; feed, entries, version, namespaces compared recursively; finding key = difference class; distinct = distinct documents",
             "samples": [{"doc": gen_doc(vlib.random.Random(2)).decode()[:300]}]}
 
